@@ -59,6 +59,11 @@ CLAIMED = {
             "All (n, batch size, evaluation batch size, loader order) of a small scope are model-checked (no loss/duplication, extra of its "
             "own item, batch sizes); unshuffled behaviours are replayed through the real dataset classes wrapped by RolloutBaseline; "
             "recorded passes (all classes, shuffle, extra key, RL4COLitModule._dataloader_single) are validated by LoaderTrace.tla."),
+    "C15": ("model_checking", "6", "Augment.tla (dihedral maps) TLC exhaustive + replay; AugTrace.tla / EvalTrace (over the env problem definitions) on real evaluation classes",
+            "The 8 dihedral maps are model-checked on the integer grid (distance preserving, first copy identity) and replayed into the real "
+            "function; the continuous symmetric augmentation and every evaluation class (greedy, augmentation, sampling, multistart, "
+            "multistart+augment over a data loader with partial batches) are run with a coordinate-sensitive table policy and each reported "
+            "(actions, reward) is validated by TLC: objective on the ORIGINAL instance, maximum over the candidates, never worse than greedy."),
 }
 PROTO_NOTE = ("Trusted base: TLC 1.8.0; the TLA+ protocol specifications under spec/decode, spec/train; float tolerances stated in the "
               "trace specifications; small-scope hypothesis.")
